@@ -423,6 +423,8 @@ func (p *streamPool) getOrOpenStream() (*Stream, error) {
 				return stream, nil
 			}
 		}
+		// the stream (or its session) was closed meanwhile, it leaves the pool for good
+		stream.Close()
 	}
 
 	stream, err := p.Session().OpenStream()
